@@ -125,7 +125,12 @@ def presentation(rng, m):
         rng.shuffle(states)
         explicit = {"states": states, "actions": rng.sample(range(nA), nA)}
     return {"action_labels": labels, "action_perm": perm, "state_labels": slabels,
-            "actions_container": rng.choice(["tuple", "tuple", "list", "frozenset"]),
+            # "shared-list": ONE list object per distinct order, handed out for every state that uses it
+            "actions_container": rng.choice(["tuple", "tuple", "list", "frozenset", "shared-list", "shared-list"]),
+            # what the reward function / distributions hand back for integral numbers: float, int, or numpy float32
+            "number_type": rng.choice(["float", "float", "int", "float32"]),
+            # identical next-state rows are served by ONE shared DictDistribution object
+            "shared_distributions": rng.random() < .5,
             "explicit_lists": explicit, "ints_as_int": rng.random() < .5}
 
 
@@ -152,7 +157,19 @@ def perturb(rng, m):
             if F(pr) > 0:
                 m["reward"]["%d,%d,%d" % (s, a1, ns)] = str(F(m["reward"].get("%d,%d,%d" % (s, a0, ns), "0")) + F(1, 2 ** 30))
         tags.append("near-tie-2^-30")
-    if rng.random() < .06 and live:
+    if r < .08 and nA >= 2 and live and rng.random() < .6:
+        # ... together with a near tie of RELATIVE size ~1e-6: action a1 copies a0, rewards larger by 2^(k-20)
+        s = rng.choice(live)
+        a0, a1 = rng.sample(range(nA), 2)
+        row = m["trans"]["%d,%d" % (s, a0)]
+        m["trans"]["%d,%d" % (s, a1)] = [list(x) for x in row]
+        for ns, pr in row:
+            m["reward"].pop("%d,%d,%d" % (s, a1, ns), None)
+            if F(pr) > 0:
+                m["reward"]["%d,%d,%d" % (s, a1, ns)] = str(F(m["reward"].get("%d,%d,%d" % (s, a0, ns), "0")) + F(2 ** k, 2 ** 20))
+        tags.append("large-with-relative-near-tie-2^-20")
+    r2 = rng.random()
+    if r2 < .06 and live:
         # a transition of probability 2^-30 (and its complement 1-2^-30 or p-2^-30)
         s = rng.choice(live)
         a = rng.randrange(nA)
@@ -164,7 +181,52 @@ def perturb(rng, m):
             x[1] = str(F(x[1]) - F(1, 2 ** 30))
             row.append([rng.choice(others), str(F(1, 2 ** 30))])
             tags.append("probability-2^-30")
+    elif r2 < .14 and live:
+        # a tiny positive probability that MATTERS: a branch of probability 2^-27 .. 2^-50 (below isclose's
+        # atol) that carries the largest reward of the MDP (so it decides rmax, which the code asserts) and is
+        # the ONLY route into an extra absorbing state (so it decides the state list / table size)
+        s = rng.choice(live)
+        a = rng.randrange(nA)
+        row = m["trans"]["%d,%d" % (s, a)]
+        big = [x for x in row if F(x[1]) >= F(1, 8)]
+        if big:
+            k2 = rng.choice([27, 30, 40, 50])
+            x = rng.choice(big)
+            x[1] = str(F(x[1]) - F(1, 2 ** k2))
+            new = n
+            row.append([new, str(F(1, 2 ** k2))])
+            top = max([F(v) for v in m["reward"].values()] + [F(0)])
+            m["reward"]["%d,%d,%d" % (s, a, new)] = str(top + rng.choice([1, 4, 1024]))
+            m["n"] = n + 1
+            m["actions"].append(list(range(nA)))
+            m["absorbing"].append(True)
+            for b in range(nA):
+                m["trans"]["%d,%d" % (new, b)] = [[new, "1"]]
+            tags.append("tiny-branch-2^-%d-carries-rmax-and-only-route-to-a-state" % k2)
     return tags
+
+
+NONDYADIC_ROWS = {1: [["1"]], 2: [["1/3", "2/3"], ["1/10", "9/10"], ["3/10", "7/10"]],
+                  3: [["1/3", "1/3", "1/3"], ["7/10", "1/5", "1/10"], ["2/7", "2/7", "3/7"], ["1/6", "1/6", "2/3"], ["1/7", "2/7", "4/7"]]}
+
+
+def make_nondyadic(rng, m):
+    """probabilities in thirds / tenths / sevenths (float row sums need not be exactly 1.0), rewards in
+    tenths or thirds; the discount is chosen non-dyadic by the caller.  msdm receives the nearest doubles;
+    the checks then work with the exact rationals OF THOSE DOUBLES (case["float_numbers"])."""
+    for key, row in m["trans"].items():
+        pos = [x for x in row if F(x[1]) > 0]
+        if len(pos) in NONDYADIC_ROWS and len(pos) > 1:
+            ps = list(rng.choice(NONDYADIC_ROWS[len(pos)]))
+            rng.shuffle(ps)
+            for x, pnew in zip(pos, ps):
+                x[1] = pnew
+    unit = rng.choice([F(1, 10), F(1, 3), F(1, 7)])
+    m["reward"] = {k: str(F(v) * 4 * unit) for k, v in m["reward"].items()}
+    pos = [x for x in m["init"] if F(x[1]) > 0]
+    if len(pos) in (2, 3):
+        for x, pnew in zip(pos, rng.choice(NONDYADIC_ROWS[len(pos)])):
+            x[1] = pnew
 
 
 def gen_main_mdp(rng, tier, gamma, keep_trivial=False, nonpos=False):
@@ -199,7 +261,7 @@ def gen_slow_mdp(rng):
     gamma = rng.choice(SLOW_GAMMAS)
     ncyc = rng.choice([1, 2, 2])
     nA = rng.choice([1, 1, 2])
-    stay = rng.choice(["7/8", "15/16"])
+    stay = rng.choice(["7/8", "15/16", "7/8", "15/16", "7/8", "15/16", "1023/1024"])   # 1023/1024: episodes of ~1000 steps
     leave = str(1 - F(stay))
     exit_reward = rng.choice(["1", "1", "2", "4", "1/4"])
     n = ncyc + 1
@@ -236,6 +298,20 @@ def gen_case(rng, tier):
         case.update(presentation(rng, m))
         case["rmax"] = str(rmax_of(m, case["explicit_lists"]))
         return case
+    if rng.random() < .09:
+        # non-dyadic family: judged on the exact rationals of the doubles msdm was given; the learner's float
+        # bookkeeping (tallies, optimistic value) is compared BIT-exactly with the same float operations redone
+        # in Python, the other clauses by the Coq certificate; no exact mirror (the rationals would explode)
+        gamma = rng.choice(["9/10", "19/20", "1/3", "2/3", "7/10"])
+        m = gen_main_mdp(rng, tier, gamma)
+        make_nondyadic(rng, m)
+        case = {"mdp": m, "m": rng.randint(1, 5), "episodes": rng.randint(1, 30), "seed": draw_seed(rng),
+                "tol": rng.choice(["1/100000", "1/100000", "1/1000"]), "family": "non-dyadic", "mirror": False,
+                "float_numbers": True, "variants": []}
+        case.update(presentation(rng, m))
+        case["number_type"] = "float"
+        case["rmax"] = str(rmax_of(m, case["explicit_lists"]))
+        return case
     gamma = rng.choice(GAMMAS * 6 + ["0"])            # discount 0 exactly in ~5%
     m = gen_main_mdp(rng, tier, gamma, keep_trivial=rng.random() < .08, nonpos=rng.random() < .06)
     variants = perturb(rng, m)
@@ -245,7 +321,9 @@ def gen_case(rng, tier):
             "tol": rng.choice(["1/100000"] * 6 + ["1/1000", "1/1000", "1/10", "1/10", "1/1000000000"]),
             "variants": variants,
             # a second, fresh RMAX object with the default listener on the already-used MDP object
-            "default_listener_rerun": rng.random() < .15}
+            "default_listener_rerun": rng.random() < .15,
+            # ... on the already-used MDP object, or on the same problem constructed a second time
+            "rerun_fresh_mdp": rng.random() < .5}
     case.update(presentation(rng, m))
     case["rmax"] = str(rmax_of(m, case["explicit_lists"]))
     if rng.random() < .2:
@@ -285,13 +363,58 @@ def gen_case(rng, tier):
 # ---------------------------------------------------------------------------------------------
 # independent oracle of the property's clauses, from the recorded experience alone
 # ---------------------------------------------------------------------------------------------
+def numbers(view, res):
+    """the numbers of one training as msdm saw them: exact generator rationals (all dyadic, equal to the
+    doubles), or for view["float_numbers"] the exact rationals of the nearest doubles.
+    q0x = the value unknown pairs must hold exactly: rmax/(1-gamma), resp. the double that one float
+    division gives (np.ones * rmax * 1/(1-gamma) rounds once)."""
+    sl, al = res["state_list"], res["action_list"]
+    P, R, av, absf, ini = gen_mdp.arrays(view["mdp"], sl, al)
+    g, rmax, tol = F(view["mdp"]["gamma"]), F(view["rmax"]), F(view["tol"])
+    if view.get("float_numbers"):
+        fx = lambda x: F(float(x))
+        P = [[[fx(x) for x in r2] for r2 in row] for row in P]
+        R = [[[fx(x) for x in r2] for r2 in row] for row in R]
+        ini = [fx(x) for x in ini]
+        q0x = F(float(rmax) * 1 / (1 - float(g)))
+        g, rmax = fx(g), fx(rmax)
+    else:
+        q0x = rmax / (1 - g)
+    return {"P": P, "R": R, "absf": absf, "ini": ini, "g": g, "rmax": rmax, "tol": tol,
+            "q0": rmax / (1 - g), "q0x": q0x}
+
+
+def float_bookkeeping_problem(view, res):
+    """non-dyadic family: redo the learner's float bookkeeping (rewards[s,a] += r while count < m, counts,
+    transition counts) with the same double operations and compare bit-exactly"""
+    nS, nA, m = len(res["state_list"]), len(res["action_list"]), int(view["m"])
+    rw = [[0.0] * nA for _ in range(nS)]
+    cnt = [[0] * nA for _ in range(nS)]
+    tr = [[[0] * nS for _ in range(nA)] for _ in range(nS)]
+    for ep in res["episodes"]:
+        for s, a, r, ns, ai in ep["steps"]:
+            if cnt[s][a] < m:
+                rw[s][a] += float(vlib.frac(r))
+                cnt[s][a] += 1
+                tr[s][a][ns] += 1
+    for s in range(nS):
+        for a in range(nA):
+            if vlib.frac(res["rewards"][s][a]) != F(rw[s][a]) or vlib.frac(res["counts"][s][a]) != cnt[s][a] or \
+                    [vlib.frac(x) for x in res["transitions"][s][a]] != tr[s][a]:
+                return {"clause": "learner tallies are not the first min(count, m) samples of the pair", "s": s, "a": a,
+                        "rewards": str(vlib.frac(res["rewards"][s][a])), "expected": str(F(rw[s][a])),
+                        "count": str(vlib.frac(res["counts"][s][a])), "expected_count": cnt[s][a]}
+    return None
+
+
 def oracle(case, res, slack):
     """returns None or a dict naming the first failing clause of the property"""
     sl, al = res["state_list"], res["action_list"]
     nS, nA = len(sl), len(al)
-    P, R, av, absf, ini = gen_mdp.arrays(case["mdp"], sl, al)
-    g, rmax, m, tol = F(case["mdp"]["gamma"]), F(case["rmax"]), int(case["m"]), F(case["tol"])
-    q0 = rmax / (1 - g)
+    nb = numbers(case, res)
+    P, R, absf, ini = nb["P"], nb["R"], nb["absf"], nb["ini"]
+    g, rmax, m, tol = nb["g"], nb["rmax"], int(case["m"]), nb["tol"]
+    q0 = nb["q0x"]
     # (1) every experienced step is a real transition with the MDP's reward
     for ei, ep in enumerate(res["episodes"]):
         cur = None
@@ -348,6 +471,9 @@ def structure_problem(case, res):
     nS, nA = len(sl), len(al)
     if len(sl) != len(set(sl)) or any(not (isinstance(s, int) and 0 <= s < case["mdp"]["n"]) for s in sl):
         return "state-list-not-a-set-of-generated-states"
+    if not set(gen_mdp.reachable(case["mdp"])) <= set(sl):
+        # a state reachable with positive (however tiny) probability has no row in the returned Q-values
+        return "reachable-state-missing-from-state-list"
     if res["n_states"] != nS or res["n_actions"] != nA:
         return "learner-table-size-differs-from-state-list-x-action-list"
     # (key order of the dicts is not semantic: compared as sets; values are read by label)
@@ -427,6 +553,13 @@ def run(ctx):
                 "mirror_skipped_slow_decay_family": 0, "mirror_skipped_estimated_cost": 0,
                 "policy_queries_at_states_outside_q": 0, "default_listener_reruns": 0,
                 "first_result_read_after_second_training": 0, "reused_on_different_mdp_of_same_table_size": 0,
+                "non_dyadic_family": 0, "non_dyadic_with_known_pairs": 0, "non_dyadic_float_row_sum_not_1": 0,
+                "one_state": 0, "one_action": 0, "n_states_equals_n_actions": 0, "trainings_over_1000_steps": 0,
+                "shared_action_list_object": 0, "shared_distribution_objects": 0, "int_or_float32_numbers": 0,
+                "rerun_on_freshly_constructed_problem": 0, "caller_objects_snapshot_compared": 0,
+                "tiny_branch_carrying_rmax": 0, "tiny_branch_only_route_state_in_state_list": 0,
+                "large_magnitude_relative_near_tie": 0, "large_magnitude_tolerance_below_1e-5_relative": 0,
+                "empirical_model_non_dyadic_m3_or_m5_known": 0,
                 "reused_same_mdp_object": 0, "state_list_order_differs_from_id_order": 0,
                 "explicit_lists": 0, "explicit_list_with_unreachable_state": 0, "tuple_labels": 0, "falsy_labels": 0,
                 "seed_0": 0, "seed_None": 0, "episodes_0": 0, "gamma_0": 0, "rmax_0": 0, "ints_passed_as_int": 0,
@@ -440,9 +573,8 @@ def run(ctx):
             continue
         sl, al = res["state_list"], res["action_list"]
         nS, nA = len(sl), len(al)
-        P, R, av, absf, ini = gen_mdp.arrays(view["mdp"], sl, al)
-        g, rmax, tol = F(view["mdp"]["gamma"]), F(view["rmax"]), F(view["tol"])
-        q0 = rmax / (1 - g)
+        nb = numbers(view, res)
+        P, R, absf, ini, g, rmax, tol, q0 = nb["P"], nb["R"], nb["absf"], nb["ini"], nb["g"], nb["rmax"], nb["tol"], nb["q0"]
         Qv = [[vlib.frac(x) for x in row] for row in res["Q"]]
         scale = max([F(1), abs(q0)] + [abs(x) for row in Qv for x in row])
         # float slack of the certificate: the loop's stop test is evaluated in doubles on values of size
@@ -489,10 +621,15 @@ def run(ctx):
             counters["policy_queries_at_states_outside_q"] += 1
             if any(isinstance(x, str) or abs(vlib.frac(x) - F(1, nA)) > F(1, 10 ** 12) for x in row):
                 ctx.violation("C17:policy-at-state-outside-q-not-uniform", {"case": case, "training": tag, "impl": res}, found=True)
+        if res.get("caller_objects_mutated"):
+            ctx.violation("C17:caller-objects-mutated", {"case": case, "training": tag, "what": res["caller_objects_mutated"]}, found=True)
         if tag == "first" and "rerun" in res:
             counters["default_listener_reruns"] += 1
             sums = [sum((vlib.frac(st[2]) for st in ep["steps"]), F(0)) for ep in res["episodes"]]
-            if [vlib.frac(x) for x in res["rerun"]["episode_rewards"]] != sums or res["rerun"]["Q"] != res["Q"]:
+            # (the default listener adds the rewards up in the type they come in: with numpy float32 rewards its
+            #  sums are float32 sums, so they are compared only for float / int numbers; Q always)
+            same_sums = view.get("number_type") == "float32" or [vlib.frac(x) for x in res["rerun"]["episode_rewards"]] == sums
+            if not same_sums or res["rerun"]["Q"] != res["Q"]:
                 ctx.violation("C17:fresh-object-same-seed-default-listener-differs",
                               {"case": case, "impl": res, "recorded_episode_rewards": [str(x) for x in sums]}, found=False)
         # input-distribution counters
@@ -512,6 +649,31 @@ def run(ctx):
         counters["per_state_action_orders_differ"] += int(len({tuple(p) for p in perm}) > 1)
         counters["string_action_labels"] += int(any(isinstance(x, str) for x in (view.get("action_labels") or [])))
         counters["multi_action"] += int(nA > 1)
+        if view.get("float_numbers"):
+            counters["non_dyadic_family"] += 1
+            counters["non_dyadic_with_known_pairs"] += int(known > 0)
+            # (plain left-to-right double additions; Python >= 3.12's sum() compensates and would hide it)
+            def plain_sum(row):
+                t = 0.0
+                for _, pp in row:
+                    t += float(F(pp))
+                return t
+            counters["non_dyadic_float_row_sum_not_1"] += int(any(plain_sum(row) != 1.0 for row in view["mdp"]["trans"].values()))
+        counters["one_state"] += int(nS == 1)
+        counters["one_action"] += int(nA == 1)
+        counters["n_states_equals_n_actions"] += int(nS == nA)
+        counters["trainings_over_1000_steps"] += int(len(exp) > 1000)
+        counters["shared_action_list_object"] += int(view.get("actions_container") == "shared-list")
+        counters["shared_distribution_objects"] += int(bool(view.get("shared_distributions")))
+        counters["int_or_float32_numbers"] += int(view.get("number_type", "float") != "float")
+        counters["rerun_on_freshly_constructed_problem"] += int(tag == "first" and "rerun" in res and bool(view.get("rerun_fresh_mdp")))
+        counters["caller_objects_snapshot_compared"] += int("caller_objects_mutated" in res)
+        tiny = [t for t in view.get("variants", []) if t.startswith("tiny-branch")]
+        counters["tiny_branch_carrying_rmax"] += int(bool(tiny))
+        counters["tiny_branch_only_route_state_in_state_list"] += int(bool(tiny) and (view["mdp"]["n"] - 1) in sl)
+        counters["large_magnitude_relative_near_tie"] += int("large-with-relative-near-tie-2^-20" in view.get("variants", []))
+        counters["large_magnitude_tolerance_below_1e-5_relative"] += int(scale >= 1000 and tol < scale / 10 ** 5 / 100 and known > 0)
+        counters["empirical_model_non_dyadic_m3_or_m5_known"] += int(view["m"] in (3, 5) and known > 0)
         counters["reused_same_mdp_object"] += int(tag == "reused" and bool(view.get("same_mdp_object")))
         counters["state_list_order_differs_from_id_order"] += int(sl != sorted(sl))
         ex = view.get("explicit_lists")
@@ -576,6 +738,15 @@ def run(ctx):
             if info[u]["known"] > 0:
                 distinct.add(vlib.structural_hash([case, tag]))
             failed = [c for c, okv in zip(CLAUSES, v) if not okv]
+            if view.get("float_numbers"):
+                # non-dyadic numbers: the two clauses that demand exact equality with exact arithmetic (tallies,
+                # optimistic entries) are judged bit-exactly against the same float operations redone in Python
+                # (float_bookkeeping_problem; oracle's unknown-pair clause uses the double rmax*1/(1-gamma))
+                failed = [c for c in failed if c not in ("c_tally", "c_unknown")]
+                fb = float_bookkeeping_problem(view, res)
+                if fb:
+                    rejected.add(u)
+                    ctx.violation(pre + "non-dyadic:" + fb["clause"], {"case": case, "training": tag, "failing_clause": fb, "impl": res}, found=False)
             if failed:
                 rejected.add(u)
                 why = oracle(view, res, info[u]["slack"])
@@ -611,11 +782,15 @@ def run(ctx):
     ctx.coverage.update({
         "evaluations": nchk + nmir,
         "distinct_nontrivial": len(distinct),
-        "rule": "three families.  MAIN (about 92%%): proper MDPs from harness/gen_mdp.py (proper=True, uniform_actions=True: 1..%d states, 1..3 actions available in every state, "
+        "rule": "four families.  NON-DYADIC (about 8%%): a MAIN-style MDP with probabilities in thirds/tenths/sevenths, rewards in tenths/thirds/sevenths, gamma in {9/10,19/20,1/3,2/3,7/10}; "
+                "msdm gets the nearest doubles, the Coq certificate the exact rationals of those doubles (clauses valid/upper/bellman/policy), the learner's float tallies and optimistic entries are compared "
+                "bit-exactly with the same float operations redone in Python; no mirror.  MAIN (about 84%%): proper MDPs from harness/gen_mdp.py (proper=True, uniform_actions=True: 1..%d states, 1..3 actions available in every state, "
                 "k/8 probabilities, zero entries, duplicate rows, explicit absorbing goals possibly with ignored self-loop rewards, "
                 "multi-state initial distributions, rewards in quarters), gamma in {1/2,3/4,7/8} or exactly 0 (5%%), threshold m in 1..5, episodes 1..30 or 0 (3%%), "
                 "seed random / 0 (5%%) / None (3%%), tolerance in {1e-5 (x6), 1e-3, 1e-1, 1e-9}, rmax = max of the reward matrix (the code asserts it; 0 for the 6%% non-positive-reward MDPs); "
-                "variants: rewards x 2^10 / 2^20 (8%%), an action duplicated with rewards larger by 2^-30 (8%%), a transition of probability 2^-30 (6%%); 92%% of MDPs are "
+                "variants: rewards x 2^10 / 2^20 (8%%), an action duplicated with rewards larger by 2^-30 (8%%), a transition of probability 2^-30 (6%%), a branch of probability 2^-27..2^-50 carrying the largest reward (so rmax) and being the only route to an extra absorbing state (8%%), "
+                "rewards x 2^k together with a duplicated action whose rewards differ by relative 2^-20 (5%%); numbers handed out as float / int / numpy float32; actions(s) may hand out ONE shared list object, "
+                "identical rows ONE shared DictDistribution (snapshots of these caller objects are compared after every train_on); 92%% of MDPs are "
                 "resampled until some initial state is non-absorbing.  PRESENTATION (all families, results mapped back by label): action labels ints / renamed ints / strings incl. '' / tuples incl. () / bools, "
                 "actions(s) listing them sorted / in one shuffled order / in a different order per state as tuple / list / frozenset; state labels ints / renamed ints / strings / tuples "
                 "(sorted state_list order differs from the id order); explicit shuffled _state_list/_action_list (25%%) or inferred; integral gamma / rmax passed as int (50%%).  "
